@@ -29,8 +29,8 @@ CHECKS = {
         technique="differential fork-on-branch symbolic execution: the WSGI and the ASGI implementation run on the same symbolic data on one path and their normalised observations are compared by z3 queries",
         design_ref="DESIGN.md §4 C04",
         note="Trusted: z3, CPython/asyncio, forksym/ReShim and the stubs shared with C02/C05/C07/C08/C09/C14 (identical on both sides). Families: all "
-             "non-file response classes, FileResponse on the symbolic file (numbers unbounded, <=2 range specs, raw Range text <=4/<=6 chars), streams run to "
-             "completion, header-derived request attributes (values <=2/<=3 Latin-1 chars; names from a recipe list), request bodies (<=3 chunks, "
+             "non-file response classes, FileResponse on the symbolic file (numbers unbounded, <=2 range specs, raw Range text <=6/<=7 chars), streams run to "
+             "completion, header-derived request attributes (values <=3 Latin-1 chars; names from a recipe list), request bodies (<=3 chunks, "
              "symbolic emptiness), Router/Subpaths/Hosts/Files/Pages/conditional requests. Abstract requests have one value per header name; URL/query "
              "parsing uses concrete recipes; forms with 323/324/325 parts and JSON with a byte order mark are concrete differential recipes."),
     "C05": dict(
@@ -38,7 +38,7 @@ CHECKS = {
         design_ref="DESIGN.md §4 C05",
         note="Trusted: z3, CPython/asyncio (streaming classes on the virtual loop), forksym/ReShim, the protocol monitor in harness/gw.py. Constructor "
              "header values are assumed printable Latin-1, cookie values Latin-1; download names and redirect targets full Unicode (no lone surrogates). "
-             "Texts <=2/<=3 chars (cookie values <=2), streams <=2/<=3 items; also a response object serving a second client after a disconnect, a receive "
+             "Texts <=3/<=4 chars (cookie values <=2), streams <=3/<=4 items; also a response object serving a second client after a disconnect, a receive "
              "channel that raises, redirect targets as URL objects, and static apps on real files whose file vanishes at a solver-chosen point. "
              "WSGI SendEventResponse only for complete runs (threads: see C06)."),
     "C06": dict(
@@ -61,8 +61,8 @@ CHECKS = {
         technique="z3 regex-language lemmas on the live convertor patterns; fork-on-branch symbolic execution of the real Route/Router over fully symbolic paths (ReShim) against a first-match oracle built from the statement's type languages; decided arithmetic for int/date/decimal conversion and round trip",
         design_ref="DESIGN.md §4 C08",
         note="Trusted: z3 (sequence/regex theory for the lemmas and short-path cross-check), CPython, forksym/ReShim, the text/integer models of "
-             "Decimal, date and UUID (each path's model is re-run on the unshimmed code). Route tables are recipes; paths <=6/<=8 symbolic chars "
-             "(<= U+2FFFF) plus a 10-char date/decimal segment; int <=4/<=6 digits; decimals <=3+3/<=4+4 digits. A date placeholder is taken to "
+             "Decimal, date and UUID (each path's model is re-run on the unshimmed code). Route tables are recipes (also mounted and nested); paths <=8/<=9 "
+             "symbolic chars (<= U+2FFFF) plus a 10-char date/decimal segment; int <=6/<=7 digits; decimals <=4+4 digits (plus 30-digit shapes). A date placeholder is taken to "
              "stand only for text that denotes a calendar date."),
     "C09": dict(
         technique="fork-on-branch symbolic execution of the real Subpaths/Hosts dispatch over symbolic characters (z3), oracle as z3 formulas / z3 regex-language membership",
@@ -96,15 +96,15 @@ CHECKS = {
         design_ref="DESIGN.md §4 C14",
         note="Trusted: z3, CPython, forksym; formatdate/parsedate are replaced by an inverse pair at one-second granularity, SHA-1 is the real one on "
              "canonical token text (collision freedom assumed); every path's model is replayed on real files with an emulated stat clock. Histories "
-             "R0;op;R1 (thorough: two ops, validators from either earlier response); ops none/touch/rewrite same size/rewrite other size/replace keeping "
+             "with one and two modifications (thorough: three; validators from any earlier response); ops none/touch/rewrite same size/rewrite other size/replace keeping "
              "an older mtime; 13 validator forms; the process time zone is a solver variable behind parsedate/mktime stand-ins; SHA-1 input with two rendered "
              "numbers back to back is reported as unsupported (token abstraction). One known finding (date-only validator, same-second rewrite) is listed in known_findings.json."),
     "C15": dict(
         technique="fork-on-branch symbolic execution of the real multipart stream helpers with SYMBOLIC limits (all limit values decided at once per form/chunking) and of the decoder's hold-back on symbolic part content, z3",
         design_ref="DESIGN.md §4 C15",
         note="Trusted: z3, CPython, forksym/ReShim (each path replayed on the unshimmed code). Forms (part kinds/sizes) and chunkings are enumerated; "
-             "both limits are unbounded z3 integers (memory limit also None). Buffer family: 1-2 (3) leading bytes over 0..255, then 14 (24) symbolic "
-             "non-line-break bytes, chunk sizes 1/5 (1/3/8), also with the boundary text mentioned inside the content and delimiter look-alike lines; "
+             "both limits are unbounded z3 integers (memory limit also None). Buffer family: 1-3 leading bytes over 0..255, then 24 (40) symbolic "
+             "non-line-break bytes, chunk sizes 1/3/8 (1/2/3/8/16), also with the boundary text mentioned inside the content and delimiter look-alike lines; "
              "bound = chunk + delimiter + 4. One known finding (blanks after a look-alike are held back) is listed in known_findings.json."),
     "C16": dict(
         technique="fork-on-branch symbolic execution: response-side cookie quoting fed into the real request-side parser (incl. stdlib _unquote run on proxies) over all 0..255 value characters; expiry with symbolic now/expires/max-age and a symbolic UTC offset",
@@ -139,7 +139,7 @@ CHECKS["C20"] = dict(
     design_ref="DESIGN.md §4 C20",
     note="Trusted: z3, CPython/asyncio (ASGI on the virtual loop, thread pool = direct call), forksym. Inner applications are a recipe list (every response "
          "class, multi-chunk stream, 1-2 cookies, restart of start_response, raising app); status, a header value, cookie value and body bytes are symbolic "
-         "(<=2/<=3 chars); body sizes around the relay's 64 KiB block are enumerated; plain-WSGI list/tuple bodies, raw ASGI events with optional keys "
+         "(<=3/<=4 chars), stacks of depth 1..3; body sizes around the relay's 64 KiB block are enumerated; plain-WSGI list/tuple bodies, raw ASGI events with optional keys "
          "omitted, a FileResponse behind a zero-copy server, two overlapping ASGI requests through one middleware instance.")
 
 CHECKS["C12"] = dict(
